@@ -1,5 +1,6 @@
 import Spdc.Real.Counts
 import Spdc.Real.Singles
+import Spdc.Real.ComposeGridLemmas
 /-!
 # C08 — fibre-coupled coincidences never exceed singles; rates and efficiencies consistent
 
@@ -214,5 +215,145 @@ example :
     ⟨by repeat (first | exact List.Forall₂.nil | apply List.Forall₂.cons <;> try norm_num),
      by repeat (first | exact List.Forall₂.nil | apply List.Forall₂.cons <;> try norm_num)⟩
   exact h.2.2.2.2.2
+
+/-! ## composed model (grid level)
+
+The theorems above take the three spectra on the grid and the correction factor as inputs.  Below they
+are lifted to the COMPOSED model (`Spdc/Model/ComposeGrid.lean`): `countsCoincidences`,
+`countsSinglesSignal`, `countsSinglesIdler`, `efficiencies` are the `SPDC::counts_*` /
+`SPDC::efficiencies` calls on a primitive setup — spectrum objects through the composed
+`try_as_optimum`, spectra through all layers, the correction factor from the composed phase and group
+indices, `dω_s·dω_i` from the range.  The pointwise inequality stays a hypothesis (see the header). -/
+
+/-- composed model, T3a lifted: the composed coincidence rate of ANY primitive setup over ANY range
+with non-empty axes is the composed correction factor times the sum of the composed `jsi` over the
+row-major enumeration of the frequency space times `dω_s·dω_i`. -/
+theorem compose_counts_def (S : Compose.Setup ℝ) (divs : Nat) (js : Compose.JS ℝ)
+    (hjs : Compose.jointSpectrum S divs = .ok js) (J : PM.JSetup ℝ) (hJ : Compose.jsetup S = .ok J)
+    (q : List (ℝ × ℝ) × ℝ) (hq : Compose.simpsonRule divs = .ok q) (R : Compose.Ranges ℝ)
+    (hx : R.toFrequencySpace.x.n ≠ 0) (hy : R.toFrequencySpace.y.n ≠ 0) :
+    Compose.countsCoincidences S divs R = (Compose.countsCorrection S).map fun corr =>
+      corr * ((R.toFrequencySpace.collect.map fun p => PM.jsi J q.1 q.2 p.1 p.2).sum *
+        (R.toFrequencySpace.x.divisionWidth * R.toFrequencySpace.y.divisionWidth)) := by
+  obtain ⟨hS, hd, -⟩ := Compose.jointSpectrum_ok hjs
+  unfold Compose.countsCoincidences
+  rw [hjs]
+  simp only [Outcome.bind]
+  rw [Compose.countsOf_eq S _ hx hy,
+    Compose.mapPoints_ok js.jsi (PM.jsi J q.1 q.2) _
+      (fun p _ => Compose.jsi_eq_of_ok (hS ▸ hJ) (hd ▸ hq) p.1 p.2)]
+  cases Compose.countsCorrection S with
+  | ok corr => simp only [Outcome.bind, Outcome.map, counts_def]
+  | err e => rfl
+  | panic e => rfl
+
+/-- composed model, C07-T1 + T3 lifted: scaling the primitive pump power by `a` and `deff` by `b`
+multiplies the composed coincidence rate and the composed signal-singles rate by `a·b²` (the
+correction factor reads neither), whenever a spectrum object exists for both setups. -/
+theorem compose_counts_linear (S : Compose.Setup ℝ) (a b : ℝ) (divs : Nat) (R : Compose.Ranges ℝ)
+    (js js' : Compose.JS ℝ) (hjs : Compose.jointSpectrum S divs = .ok js)
+    (hjs' : Compose.jointSpectrum (S.scaled a b) divs = .ok js') :
+    Compose.countsCoincidences (S.scaled a b) divs R
+        = (Compose.countsCoincidences S divs R).map (fun x => a * b ^ 2 * x)
+      ∧ Compose.countsSinglesSignal (S.scaled a b) divs R
+        = (Compose.countsSinglesSignal S divs R).map (fun x => a * b ^ 2 * x) := by
+  obtain ⟨hS, hd, -⟩ := Compose.jointSpectrum_ok hjs
+  obtain ⟨hS', hd', -⟩ := Compose.jointSpectrum_ok hjs'
+  have hc : ∀ f, Compose.countsOf (S.scaled a b) R.toFrequencySpace f
+      = Compose.countsOf S R.toFrequencySpace f := fun _ => rfl
+  constructor
+  · unfold Compose.countsCoincidences
+    rw [hjs, hjs']
+    simp only [Outcome.bind]
+    rw [hc, ← Compose.countsOf_map]
+    congr 1
+    funext ωs ωi
+    simp only [Compose.JS.jsi, hS, hd, hS', hd', Compose.jsi_scaled]
+  · unfold Compose.countsSinglesSignal
+    rw [hjs, hjs']
+    simp only [Outcome.bind]
+    rw [hc, ← Compose.countsOf_map]
+    congr 1
+    funext ωs ωi
+    simp only [Compose.JS.jsiSingles, hS, hd, hS', hd', Compose.jsiSingles_scaled]
+
+/-- composed model: the same for the idler-singles rate (spectrum objects of the exchanged setups) -/
+theorem compose_counts_idler_linear (S : Compose.Setup ℝ) (a b : ℝ) (divs : Nat) (R : Compose.Ranges ℝ)
+    (sw sw' : Compose.JS ℝ) (hsw : Compose.jointSpectrum S.swap divs = .ok sw)
+    (hsw' : Compose.jointSpectrum (S.scaled a b).swap divs = .ok sw') :
+    Compose.countsSinglesIdler (S.scaled a b) divs R
+        = (Compose.countsSinglesIdler S divs R).map (fun x => a * b ^ 2 * x) := by
+  obtain ⟨hS, hd, -⟩ := Compose.jointSpectrum_ok hsw
+  obtain ⟨hS', hd', -⟩ := Compose.jointSpectrum_ok hsw'
+  have hc : ∀ f, Compose.countsOf (S.scaled a b) R.toFrequencySpace f
+      = Compose.countsOf S R.toFrequencySpace f := fun _ => rfl
+  unfold Compose.countsSinglesIdler
+  rw [hsw, hsw']
+  simp only [Outcome.bind]
+  rw [hc, ← Compose.countsOf_map]
+  congr 1
+  funext ωs ωi
+  simp only [Compose.JS.jsiSingles, hS, hd, hS', hd', Compose.swap_scaled, Compose.jsiSingles_scaled]
+
+/-- composed model, T1a lifted: the composed `SPDC::efficiencies` is `efficiencies_from_counts` of the
+three composed rates; for positive singles rates the three efficiencies are `C/Ri`, `C/Rs`,
+`C/√(Rs·Ri)`. -/
+theorem compose_efficiencies_formula (S : Compose.Setup ℝ) (divs : Nat) (R : Compose.Ranges ℝ)
+    (c rs ri : ℝ) (hc : Compose.countsCoincidences S divs R = .ok c)
+    (hs : Compose.countsSinglesSignal S divs R = .ok rs) (hi : Compose.countsSinglesIdler S divs R = .ok ri) :
+    Compose.efficiencies S divs R = .ok (efficienciesFromCounts c rs ri) ∧
+      (0 < rs → 0 < ri →
+        (efficienciesFromCounts c rs ri).signal = c / ri ∧ (efficienciesFromCounts c rs ri).idler = c / rs ∧
+        (efficienciesFromCounts c rs ri).symmetric = c / Real.sqrt (rs * ri)) := by
+  refine ⟨?_, fun h1 h2 => eff_formulas c rs ri h1 h2⟩
+  unfold Compose.efficiencies
+  rw [hc, hs, hi]
+  rfl
+
+/-- composed model, T2b lifted (**partial**: the pointwise inequality `hpt` between the composed
+coincidence spectrum and the two composed singles spectra on the grid is a hypothesis, as in
+`sum_lift`; so are a non-negative correction factor and cell area).  Then the three composed rates
+satisfy `0 ≤ C ≤ min(Rs, Ri)` and all three composed efficiencies lie in `[0, 1]`. -/
+theorem compose_efficiencies_unit_partial (S : Compose.Setup ℝ) (divs : Nat) (R : Compose.Ranges ℝ)
+    (js sw : Compose.JS ℝ) (hjs : Compose.jointSpectrum S divs = .ok js)
+    (hsw : Compose.jointSpectrum S.swap divs = .ok sw)
+    (hx : R.toFrequencySpace.x.n ≠ 0) (hy : R.toFrequencySpace.y.n ≠ 0)
+    (corr : ℝ) (hcorr : Compose.countsCorrection S = .ok corr) (hcorr0 : 0 ≤ corr)
+    (harea : 0 ≤ cellArea R.toFrequencySpace)
+    (vj vs vi : List ℝ)
+    (hvj : Compose.mapPoints js.jsi R.toFrequencySpace.collect = .ok vj)
+    (hvs : Compose.mapPoints js.jsiSingles R.toFrequencySpace.collect = .ok vs)
+    (hvi : Compose.mapPoints (fun ωs ωi => sw.jsiSingles ωi ωs) R.toFrequencySpace.collect = .ok vi)
+    (hpos : ∀ x ∈ vj, 0 ≤ x)
+    (hpt : List.Forall₂ (· ≤ ·) vj vs ∧ List.Forall₂ (· ≤ ·) vj vi) :
+    ∃ e, Compose.efficiencies S divs R = .ok e ∧
+      0 ≤ e.coincidences ∧ e.coincidences ≤ e.signalSingles ∧ e.coincidences ≤ e.idlerSingles ∧
+      (0 ≤ e.signal ∧ e.signal ≤ 1) ∧ (0 ≤ e.idler ∧ e.idler ≤ 1) ∧ (0 ≤ e.symmetric ∧ e.symmetric ≤ 1) := by
+  refine ⟨_, ?_, sum_lift corr R.toFrequencySpace vj vs vi hcorr0 harea hpos hpt⟩
+  unfold Compose.efficiencies Compose.countsCoincidences Compose.countsSinglesSignal Compose.countsSinglesIdler
+  rw [hjs, hsw]
+  simp only [Outcome.bind, Compose.countsOf_eq S _ hx hy, hcorr, hvj, hvs, hvi, Outcome.map]
+  rfl
+
+/-! ### non-vacuity (grid level) -/
+
+/-- a concrete range with non-empty axes and non-negative cell area, in each of the three range kinds -/
+example : (Compose.Ranges.freq (⟨⟨1, 2, 3⟩, ⟨1, 3, 2⟩⟩ : Steps2D ℝ)).toFrequencySpace.x.n ≠ 0 ∧
+    0 ≤ cellArea (Compose.Ranges.freq (⟨⟨1, 2, 3⟩, ⟨1, 3, 2⟩⟩ : Steps2D ℝ)).toFrequencySpace := by
+  constructor
+  · simp [Compose.Ranges.toFrequencySpace]
+  · simp [Compose.Ranges.toFrequencySpace, cellArea, Steps.divisionWidth]
+
+example : (Compose.Ranges.sumDiff (⟨⟨1, 2, 3⟩, ⟨0, 1, 4⟩⟩ : Steps2D ℝ)).toFrequencySpace.y.n = 4 := rfl
+
+/-- non-vacuity of the outcome hypotheses (`hjs`, `hJ`, `hq`): for the concrete unpoled KTP setup
+`Compose.exGrid` (explicit idler, 775 → 1500 + 1603 nm) the spectrum object (Simpson-50), the
+joint-spectrum view and the Simpson rule all exist over ℝ (`Compose.grid_hypotheses_satisfiable`
+shows the same for every unpoled explicit-idler setup with `0 ≠ λ_p < λ_s`) -/
+example : ∃ js J q, Compose.jointSpectrum Compose.exGrid 50 = .ok js ∧ Compose.jsetup Compose.exGrid = .ok J ∧
+    (Compose.simpsonRule 50 : Outcome (List (ℝ × ℝ) × ℝ)) = .ok q := Compose.exGrid_available
+
+/-- … and so does the spectrum object of the exchanged setup (idler-singles route) -/
+example : ∃ sw, Compose.jointSpectrum Compose.exGrid.swap 50 = .ok sw := Compose.exGrid_swap_available
 
 end Spdc.Props.C08
